@@ -63,6 +63,9 @@ type Conn struct {
 	seq          int
 	Log          []Event
 	KeepLog      bool
+	// CancelIdentity: injected failures are errors that wrap context.Canceled (a connection pool that gives up because
+	// the context is done) instead of an anonymous error: what failed is the same, only the error's identity differs
+	CancelIdentity bool
 	faults       map[int]bool // primitive sequence numbers that fail
 	FaultsHit    int
 	FaultKinds   []string
@@ -96,6 +99,13 @@ func (c *Conn) PendingFaults() bool {
 }
 
 var ErrInjected = errors.New("pgfake: injected failure")
+
+func (c *Conn) injected() error {
+	if c.CancelIdentity {
+		return fmt.Errorf("pgfake: injected failure: %w", context.Canceled)
+	}
+	return ErrInjected
+}
 
 // prim registers a primitive call; returns true when it must fail.
 func (c *Conn) prim(kind string, tx int) bool {
@@ -315,7 +325,7 @@ func (t *Tx) Commit(ctx context.Context) error {
 	fail := t.c.prim("commit", t.id)
 	t.closed = true
 	if fail {
-		return ErrInjected // not committed; the transaction is gone
+		return t.c.injected() // not committed; the transaction is gone
 	}
 	if t.aborted {
 		return pgx.ErrTxCommitRollback
